@@ -8,6 +8,8 @@ type Rule func(ctx *core.Ctx, r *core.Report)
 
 // Registry maps property ids to their rule sets.
 var Registry = map[string]Rule{
+	"C01": C01,
+	"C02": C02,
 	"C03": C03,
 	"C04": C04,
 	"C05": C05,
